@@ -200,9 +200,10 @@ func (p *StreamPool) getConnection(k key, end bool, ts time.Time, tcp *layers.TC
 	conn, half, rev = p.newConnection(k, s, ts)
 	conn2, half2, rev2 := p.getHalf(k)
 	if conn2 != nil {
-		if conn2.key != k {
-			panic("FIXME: other dir added in the meantime...")
-		}
+		// Another assembler registered this connection in the meantime, under this key or
+		// (first packets of the two directions racing) under the reversed key: getHalf has
+		// already oriented the halves, so use that entry and give the unused connection back.
+		p.free = append(p.free, conn)
 		// FIXME: delete s ?
 		return conn2, half2, rev2
 	}
